@@ -13,8 +13,8 @@ from pathlib import Path
 
 from .common import scratch_dir
 
-# p1 and p3 share their file name on purpose: an entry is keyed by its whole relative path (C09: "path ... unchanged")
-PATHS = {"p1": "a.py", "p2": "pkg/b.py", "p3": "pkg/sub/a.py"}
+# p1 and p3 share their file name on purpose: an entry is keyed by its whole relative path (C09: "path ... unchanged"); p2 has a blank in its name
+PATHS = {"p1": "a.py", "p2": "pkg/b c.py", "p3": "pkg/sub/a.py"}
 
 
 def _body(n, start=0):
@@ -102,8 +102,8 @@ class World:
             for rel, v in files.items():
                 # a value of the wrong JSON type anywhere (true for a number, a number for a string, ...) makes the
                 # document "JSON of the wrong shape" (C10): it is not a readable report
-                if type(v["checksum"]) is not str or type(v["language"]) is not str or type(v["loc"]) is not int:
-                    raise TypeError("ill-typed entry")
+                if type(v["checksum"]) is not str or type(v["language"]) is not str or type(v["loc"]) is not int or type(v["measurements"]) is not list:
+                    raise TypeError("ill-typed entry")  # measurements: {} or "" is not an empty LIST of measurements
                 for m in v["measurements"]:
                     if type(m["unit_name"]) is not str or type(m["value"]) is not int or any(type(m[a][b]) is not int for a in ("start", "end") for b in ("line", "column")):
                         raise TypeError("ill-typed measurement")
@@ -334,8 +334,12 @@ class World:
             files = d["codebase"]["files"]
             key = sorted(files)[0]
             ent = files[key]
-            flavour = (detail or 0) % 5
-            if flavour == 0 or not ent["measurements"]:
+            flavour = (detail or 0) % 7
+            if flavour == 5:      # not a list, but something a loop accepts without a murmur
+                ent["measurements"] = {}
+            elif flavour == 6:
+                ent["measurements"] = ""
+            elif flavour == 0 or not ent["measurements"]:
                 ent["loc"] = True
             elif flavour == 1:
                 ent["measurements"][0]["value"] = True
